@@ -20,6 +20,7 @@ import random
 import signal
 import sys
 import time
+import zlib
 
 # --------------------------------------------------------------------------
 # canonical dump of an arbitrary object graph (address-free, hash-order-free)
@@ -394,6 +395,11 @@ def build_record(spec):  # pylint: disable=too-many-locals,too-many-branches
             pfam = PFAMDomain(sub, "a generated domain", FeatureLocation(0, 10), "PF00001.3", "c18", cds["tag"],
                               domain="p450")
             pfam.domain_id = f"pfam_{cds['tag']}"
+            if zlib.crc32(cds["tag"].encode()) % 2 == 0:
+                # as pfam2go annotates them
+                from antismash.common.secmet.qualifiers.go import GOQualifier
+                pfam.gene_ontologies = GOQualifier({"GO:0004497": "monooxygenase activity",
+                                                    "GO:0005506": "iron ion binding"})
             record.add_pfam_domain(pfam)
             motif = CDSMotif(sub, cds["tag"], FeatureLocation(0, 10), "c18")
             motif.domain_id = f"motif_{cds['tag']}"
@@ -569,7 +575,14 @@ def _record_objects(scenario):
         else:
             unstable.append(i)
         shapes.append(record_shape(second))
-        if fn == "cds_probe":
+        if fn == "children_echo":
+            # the cached gene tuple of an area on its own, as an argument and as a result
+            def children(record):
+                regions = record.get_regions()
+                return regions[0].cds_children if regions else record.get_cds_features()
+            seq_args.append([children(first), 0])
+            par_args.append([children(second), delay])
+        elif fn == "cds_probe":
             pick = spec.get("pick", 0)
             seq_args.append([first.get_cds_features()[pick], i, 0])
             par_args.append([second.get_cds_features()[pick], i, delay])
@@ -582,7 +595,8 @@ def _record_objects(scenario):
     return seq_args, par_args, shapes, unstable
 
 
-RECORD_FUNCTIONS = {"echo": rec_echo, "sanitise": rec_sanitise, "ensure": rec_ensure, "cds_probe": cds_probe}
+RECORD_FUNCTIONS = {"echo": rec_echo, "sanitise": rec_sanitise, "ensure": rec_ensure, "cds_probe": cds_probe,
+                    "children_echo": rec_echo}
 
 
 def run_record_scenario(scenario):  # pylint: disable=too-many-locals,too-many-branches
@@ -602,6 +616,20 @@ def run_record_scenario(scenario):  # pylint: disable=too-many-locals,too-many-b
 
     # the sequential run, in this process
     seq_info, seq_results = _outcome(lambda: [function(*a) for a in seq_args])
+    # what goes to the workers and what they send back crosses the process boundary as a pickle: when an
+    # argument or a sequential result does not survive that (a deterministic fact, no scheduling involved), no
+    # pool is started - a pool whose worker or result handler dies while unpickling never returns
+    if scenario["k"] > 1:
+        import pickle
+        payloads = [("argument", i, a) for i, a in enumerate(par_args)]
+        if seq_info["outcome"] == "returned":
+            payloads += [("result", i, r) for i, r in enumerate(seq_results)]
+        for what, i, payload in payloads:
+            try:
+                pickle.loads(pickle.dumps(payload))
+            except Exception as err:  # pylint: disable=broad-except
+                return {"outcome": "not_picklable", "what": what, "index": i, "exc_type": type(err).__name__,
+                        "exc_msg": str(err)[:300], "seq_outcome": seq_info["outcome"], "shapes": shapes}
     info, results = _outcome(lambda: _call_parallel(function, par_args, scenario))
     info["shapes"] = shapes
     info["unstable_builds"] = unstable
